@@ -22,7 +22,7 @@ MIN_EVAL = {"quick": {"values": 1500, "dims_grid": 1500, "raises": 300}, "thorou
 
 def cases(tier, seed):
     rng = np.random.default_rng([seed, 1717])
-    n = 90 if tier == "quick" else 1800
+    n = 90 if tier == "quick" else 12000
     for i in range(n):
         yield {"mesh": gen.random_mesh(rng, 120 if tier == "quick" else 800, families=["voronoi", "merged", "merged", "polyhedron", "delaunay", "cubed_sphere"]),
                "extra_width": int(rng.choice([0, 0, 2])), "dseed": int(rng.integers(0, 10**6)),
